@@ -359,6 +359,14 @@ func c16Main(r *run.Runner) {
 			func(pad string) string { return "T | where a == '" + pad + "';" },
 			func(pad string) string { return "let x = 1; T | where b == x // " + pad },
 			func(pad string) string { return "T | where a == x" + strings.Repeat(" ", len(pad)) + ";U | count;" },
+			// padding (a comment block, blank lines) BEFORE a let / a query inside its statement
+			func(pad string) string { return "//" + pad + "\nlet x = 3;\nT | take x;" },
+			func(pad string) string {
+				return "T | count;" + strings.Repeat(" ", len(pad)) + "\nlet x = 4; U | take x;"
+			},
+			func(pad string) string {
+				return strings.Repeat("// license line\n", len(pad)/16) + strings.Repeat(" ", len(pad)%16) + "let x = 5;\n" + strings.Repeat("\n", len(pad)/16) + "T | take x"
+			},
 		} {
 			base := shape("")
 			if n <= len(base) {
